@@ -99,6 +99,7 @@ func VerifCollectAndPlot(
 		st:      makeCollectorState(cfg),
 		logger:  log.NewSecondaryLogger(ctx, nil, "collector", true, false),
 	}
+	defer log.VerifRelease(col.logger)
 	of := newOutputFiles()
 	note := func(err error) {
 		if err != nil && collectErr == "" {
